@@ -154,7 +154,7 @@ fn dump(c: &tokio_postgres::Config, p: &str) -> String {
 
 const STRINGS: &[&str] = &[
     "", "u", "postgres", "na me", "üñï", "a=b", "/tmp", "/var/run/pg", "localhost", "db.example.com",
-    "x'y\"z", "-c statement_timeout=5s", "💾",
+    "x'y\"z", "-c statement_timeout=5s", "💾", " ", "\t", "\u{a0}",
     // long values: past the 63 bytes PostgreSQL keeps of an identifier / application_name, with
     // and without a multi-byte character across that boundary, and a long one made of 2-byte
     // characters only (any byte offset that is not even lies inside a character)
@@ -207,7 +207,7 @@ fn gen_config(r: &mut Rng, p_set: usize) -> Config {
         c.password = Some(gen_str(r, false));
     }
     if r.chance(p_set.max(75)) {
-        c.dbname = Some(if r.chance(85) { (*r.pick(&["db", "postgres", "d b", "dß"])).to_string() } else { gen_str(r, false) });
+        c.dbname = Some(if r.chance(85) { (*r.pick(&["db", "postgres", "d b", "dß", " "])).to_string() } else { gen_str(r, false) });
     }
     if r.chance(p_set) {
         c.options = Some(gen_str(r, false));
@@ -459,13 +459,11 @@ async fn whoami(c: &tokio_postgres::Client) -> i64 {
 async fn wire_history(rng: &mut Rng, srv: &wire::Server) -> usize {
     // one server per process (listening sockets and ports are scarce): this history's
     // connections are the ones accepted from now on
-    let base = {
-        let mut st = srv.state.lock().unwrap();
-        st.replies.clear();
-        st.conns.len()
-    };
+    srv.state.lock().unwrap().replies.clear();
     let max = 1 + rng.below(3);
     let len = 5 + rng.below(18);
+    let grown = max > 1 && rng.chance(40);
+    let build_max = if grown { 1 } else { max };
     let (method, mtok) = match rng.below(5) {
         0 => (RecyclingMethod::Fast, "fast".to_string()),
         1 => (RecyclingMethod::Verified, "verified".to_string()),
@@ -500,12 +498,12 @@ async fn wire_history(rng: &mut Rng, srv: &wire::Server) -> usize {
         let mut pg = tokio_postgres::Config::new();
         pg.host("127.0.0.1").port(srv.port).user("u").dbname("d");
         let mgr = deadpool_postgres::Manager::from_connect(pg, Lingering, ManagerConfig { recycling_method: method });
-        deadpool_postgres::Pool::builder(mgr).max_size(max).runtime(Runtime::Tokio1).build().unwrap()
+        deadpool_postgres::Pool::builder(mgr).max_size(build_max).runtime(Runtime::Tokio1).build().unwrap()
     } else if route == 1 {
         let mut pg = tokio_postgres::Config::new();
         pg.host("127.0.0.1").port(srv.port).user("u").dbname("d");
         let mgr = deadpool_postgres::Manager::from_config(pg, NoTls, ManagerConfig { recycling_method: method });
-        deadpool_postgres::Pool::builder(mgr).max_size(max).runtime(Runtime::Tokio1).build().unwrap()
+        deadpool_postgres::Pool::builder(mgr).max_size(build_max).runtime(Runtime::Tokio1).build().unwrap()
     } else {
         let mut c = Config::new();
         c.host = Some("127.0.0.1".into());
@@ -513,9 +511,25 @@ async fn wire_history(rng: &mut Rng, srv: &wire::Server) -> usize {
         c.user = Some("u".into());
         c.dbname = Some("d".into());
         c.manager = Some(ManagerConfig { recycling_method: method });
-        c.pool = Some(PoolConfig::new(max));
+        c.pool = Some(PoolConfig::new(build_max));
         c.create_pool(Some(Runtime::Tokio1), NoTls).unwrap()
     };
+    // a client made directly with the pool's manager and dropped again (a dedicated connection the
+    // pool never owned): it was registered with the statement-cache registry and is gone now - the
+    // registry has to cope with the dead entry when it is asked to clear / remove later
+    if rng.chance(40) {
+        use deadpool::managed::Manager as _;
+        if let Ok(c) = pool.manager().create().await {
+            drop(c);
+        }
+        tokio::time::sleep(Duration::from_millis(2)).await;
+    }
+    // built small and grown: the limit in force is the one `resize()` set, not the configured one
+    // (the model only knows the limit in force)
+    if grown {
+        pool.resize(max);
+    }
+    let base = srv.state.lock().unwrap().conns.len();
     let tmo = Timeouts { wait: Some(Duration::ZERO), create: None, recycle: None };
     let mut hist: Vec<String> = Vec::new();
     let emit = |inp: String, out: String, hist: &mut Vec<String>| {
